@@ -22,6 +22,7 @@ type Case struct {
 	NWf   int    `json:"nwf"` // wavefronts per work-group
 	NWg   int    `json:"nwg"` // work-groups
 	Prog  []Stmt `json:"prog"`
+	Pen   int    `json:"pen,omitempty"`   // coalescing penalty of the vector memory unit (0 = R9 Nano, 3 = MI300A)
 	Known bool   `json:"known,omitempty"` // member of the documented early-exit class (witness only)
 
 	Words  []string   `json:"words,omitempty"`
@@ -32,7 +33,7 @@ type Case struct {
 }
 
 func strip(c Case) Case {
-	return Case{Name: c.Name, NWf: c.NWf, NWg: c.NWg, Prog: c.Prog, Known: c.Known}
+	return Case{Name: c.Name, NWf: c.NWf, NWg: c.NWg, Prog: c.Prog, Pen: c.Pen, Known: c.Known}
 }
 
 func runCase(c Case, timeoutMs int) Case {
